@@ -528,3 +528,7 @@ package rlwe
 //@   requires iscoef(pol)
 //@   assigns pol
 //@   ensures dom(pol) == ite(metadata.CiphertextMetaData.IsNTT, 1, 0) && mexp(pol) == old(mexp(pol)) + ite(metadata.CiphertextMetaData.IsMontgomery, 1, 0)
+
+//@ afunc GadgetCiphertext.BaseTwoDecompositionVectorSize
+//@   trusted opaque at the abstract level: a new slice with the number of power-of-two digits of every RNS component (reads only)
+//@   assigns
